@@ -53,6 +53,8 @@ def values(tier, seed):
             Decimal("12345678901234567890.1234567890123456789"), Decimal("-7.000"),
             "w/5", "2*x", "", "1.5", "1e-9", "1E-9", "2.5E6", "-7E+3", "1_0", ".5", "5.", "+3", " 3 ", "nan", "inf", "abc def",
             "  lead", "trail\t", " both ", "line\n", "   ", "\u00a0nbsp\u00a0", "a  b",
+            "0.12345678901234567890123", "1234567890.0123456789", "12345678901234567890123", "-3.000000000000000000001e-7",
+            "1e400", "1E-400", "0.1000000000000000055511151231257827", "+.5E+2", "9007199254740993", "-0.000000000000000000000000000000000000001",
             "0x10", str(Decimal("1E-9")), str(Decimal("12E+7")), h.Literal("a+b"), h.Literal(""),
             _StrEnum.TYPICAL, _PlainEnum.FAST, _LoudStr("quiet")]
     for p in Prefix:
@@ -70,6 +72,8 @@ def values(tier, seed):
         else:
             digits = "".join(rnd.choice("0123456789") for _ in range(rnd.randint(1, 40)))
             vals.append(Decimal(("-" if rnd.random() < 0.5 else "") + digits + "E" + str(rnd.randint(-30, 30))))
+            if rnd.random() < 0.5:      # the same number as TEXT (numeric strings of up to 40 digits, exponents far beyond a double's)
+                vals.append(("-" if rnd.random() < 0.5 else "") + digits[:1] + "." + digits[1:] + "e" + str(rnd.randint(-400, 400)))
     return vals
 
 
@@ -381,6 +385,12 @@ def run(ctx):
     from contracts import c_params as cp
     ctx.verify(cp.engine(), cp.VERIFY, min_obligations={cp.VERIFY[0].key: 21})
     ctx.verify(cp.prefixed_engine(), cp.VERIFY_PREFIXED, min_obligations={cp.VERIFY_PREFIXED[0].key: 6})
+    from contracts import c_scalar as cs
+    ctx.verify(cs.engine(), cs.VERIFY, replay=cs.replay, min_obligations={cs.KEY: 5})
+    ctx.assumptions.append("to_scalar: the Prefixed constructor (pydantic validation into a Decimal) is trusted - a call "
+                           "yields a new Prefixed or raises; proved is which object it is handed (the argument itself) and "
+                           "that a refused string becomes a Literal of the same text; exactness of Decimal(str) / "
+                           "Decimal(int) is decided by the bounded family")
     ctx.assumptions.append("export_prefixed: the mantissa is modelled as an exact rational (finite Decimal); "
                            "str(Decimal) is abstracted as a function of the value (its exponent form is decided by the "
                            "bounded family, which compares exported values as Fractions)")
